@@ -17,16 +17,6 @@ mod verif_bpetable {
     }
 
     #[kani::proof]
-    #[kani::unwind(258)]
-    pub fn char_to_byte_inverts_byte_to_char() {
-        let table = byte_to_char();
-        let inv = char_to_byte();
-        assert!(inv.len() == 256, "one entry per byte");
-        let b: u8 = kani::any();
-        assert!(inv.get(&table[b as usize]) == Some(&b), "char_to_byte[byte_to_char[b]] == b");
-    }
-
-    #[kani::proof]
     pub fn canary() {
         let x: u8 = kani::any();
         assert!(x != 7);
